@@ -3,6 +3,7 @@
    (Model/ParseM.v, EmitM.v, GC.v), tied to the code by the module-level correspondence run. *)
 From Coq Require Import List NArith Bool. Import ListNotations.
 From WV Require Import Gen.Ops Model.Common Model.IR Model.ModuleM Model.ParseM Model.EmitM Model.GC Proofs.CustomsCfg.
+From WV Require Import Proofs.GcDeclare.
 Local Open Scope nat_scope.
 
 (* every custom section walrus does not interpret (raw_customs: not `name`, not `producers`, not
@@ -15,7 +16,7 @@ Proof. exact CustomsCfg.c12_roundtrip. Qed.
 
 (* the GC pass does not touch the custom sections *)
 Theorem c12_gc : forall m m', gc m = Ok m' -> m_customs m' = m_customs m.
-Proof. exact gc_customs. Qed.
+Proof. exact gc_customs_full. Qed.
 
 (* emitting consumes nothing: the module is unchanged, so a second emit yields the same sections *)
 Theorem c12_emit_keeps_module : forall m ilen dw e, emitM m ilen dw = Ok e -> em_module e = m.
